@@ -113,7 +113,9 @@ extern volatile int vf_asan_hits;
 extern volatile long vf_alloc_calls;        /* library allocation calls since start */
 extern volatile long vf_fail_at;            /* fail when vf_alloc_calls reaches this (0=off) */
 extern volatile long vf_fail_from;          /* fail every call with index >= this (0=off) */
-extern volatile long vf_fail_hits;          /* failures delivered */
+extern volatile long vf_fail_hits;
+extern volatile int vf_errno_noise; extern volatile long vf_errno_noise_hits;   /* successful allocations leave errno = ENOMEM */
+extern int vf_errno_noise_every;          /* failures delivered */
 extern volatile long vf_alloc_budget;       /* if >0: trip when exceeded within a call */
 extern volatile long vf_bytes_budget;       /* if >0: live library bytes cap */
 extern volatile int vf_budget_tripped;
